@@ -8,6 +8,7 @@ from ..astutil import decorators, dotted, is_const, is_none, kw, norm, strip_doc
 from ..dcmodel import all_fields, caching_new
 from ..dtree import decision_tree
 from ..effects import scan_writes
+from ..finite import k_eq, k_is, k_none
 from ..report import Checker
 from ..srcmodel import Cls, Func, Unsupported
 
@@ -27,8 +28,8 @@ def r_api_re(ck: Checker) -> None:
              and c.func.attr in ("match", "search", "fullmatch", "findall", "finditer")
              and (norm(c.func.value) in ("self.pattern", "re") or "pattern" in norm(c.func.value))]
     what = "a quoted regex is tested with match (anchored at the start only) against str(value)"
-    if len(calls) != 1:
-        raise Unsupported(f"RegexMatcher._match: {len(calls)} regex calls", f.node)
+    if not calls or len({norm(x) for x in calls}) != 1:
+        raise Unsupported(f"RegexMatcher._match: {len(calls)} different regex calls", f.node)
     c = calls[0]
     arg = c.args[-1] if c.args else None
     if c.func.attr != "match":
@@ -38,7 +39,7 @@ def r_api_re(ck: Checker) -> None:
     else:
         ck.holds("R-API-RE", f, c, what)
     leaves = decision_tree(strip_docstring(f.node.body))
-    key = f"is(None,{norm(c)})"
+    key = k_none(norm(c))
     bad = []
     for lf in leaves:
         t = _tuple_ret(lf.value)
@@ -59,12 +60,7 @@ def r_node_eq(ck: Checker) -> None:
     for cls, subject in (("ValueMatcher", "self.value"), ("VarMatcher", None)):
         f = ck.repo.func(PAT, f"{cls}._match")
         body = strip_docstring(f.node.body)
-        subj = subject
-        if subj is None:
-            a = [st for st in body if isinstance(st, ast.Assign) and norm(st.value) == "ctx[self.var_name]"]
-            if len(a) != 1:
-                raise Unsupported("VarMatcher._match: captured value is not read as ctx[self.var_name]", f.node)
-            subj = norm(a[0].targets[0])
+        subj = subject or "ctx[self.var_name]"
         leaves = decision_tree(body)
         k_node = f"isinstance({subj}, ASTNode)"
         bad = []
@@ -107,7 +103,7 @@ def r_zipguard_seq(ck: Checker) -> None:
     dom = lambda k: (0, 1, 2, 3) if k.startswith("len(") else (True, False)  # noqa: E731
     leaves = decision_tree(body, domain=dom, max_atoms=10)
     k_seq = "isinstance(value, Sequence)"
-    k_tail = "is(None,self.tail_matcher)"
+    k_tail = k_none("self.tail_matcher")
     bad = []
     n = 0
     for lf in leaves:
@@ -197,17 +193,17 @@ def r_capture(ck: Checker) -> None:
     okv, nv = (norm(x) for x in call[0].targets[0].elts)
     bad = []
     for lf in leaves:
-        a = {k: v for k, v in lf.assign.items() if k != "is(None,ctx)"}
+        a = {k: v for k, v in lf.assign.items() if k != k_none("ctx")}
         t = _tuple_ret(lf.value)
         if t is None:
             bad.append(f"returns {lf.val()}")
         elif a.get(okv) is False:
             if t != ("False", "{}"):
                 bad.append(f"failure returns {lf.val()} (captures must be empty)")
-        elif a.get(okv) is True and a.get("is(None,self.name)") is True:
+        elif a.get(okv) is True and a.get(k_none("self.name")) is True:
             if t != ("True", nv):
                 bad.append(f"no capture name: returns {lf.val()}")
-        elif a.get(okv) is True and a.get("is(None,self.name)") is False:
+        elif a.get(okv) is True and a.get(k_none("self.name")) is False:
             if t[0] != "True" or t[1] not in (f"{{self.name: value, **{nv}}}", f"{{**{nv}, self.name: value}}"):
                 bad.append(f"named capture returns {lf.val()} (the matched object itself must be captured)")
         else:
